@@ -531,6 +531,9 @@ func TestC20(t *testing.T) {
 		case "get-auction":
 			wantMethod = "GetAuction"
 			args = []string{fmt.Sprint(aid)}
+			if a := snap.Auction(aid); a != nil {
+				mustShow = []string{a.Auctioneer, a.SellingAddr, `"` + a.SellAmt.String() + `"`, a.SellDenom, a.PayDenom, a.Status.String()}
+			}
 			checkReq = func(r any) string {
 				q, ok := r.(*types.QueryGetAuctionRequest)
 				if !ok || q.AuctionId != aid {
@@ -541,6 +544,9 @@ func TestC20(t *testing.T) {
 		case "get-bid":
 			wantMethod = "GetBid"
 			args = []string{fmt.Sprint(aid), fmt.Sprint(bidID)}
+			if b := snap.Bid(aid, bidID); b != nil {
+				mustShow = []string{b.Bidder, `"` + b.Amt.String() + `"`, b.Denom, b.Type.String()}
+			}
 			checkReq = func(r any) string {
 				q, ok := r.(*types.QueryGetBidRequest)
 				if !ok || q.AuctionId != aid || q.BidId != bidID {
@@ -593,6 +599,11 @@ func TestC20(t *testing.T) {
 			if im != "" {
 				args = append(args, "--is-matched", im)
 			}
+			for _, b := range snap.BidsOf(aid) {
+				if (bd == "" || b.Bidder == bd) && (im == "" || fmt.Sprint(b.Matched) == im) {
+					mustShow = append(mustShow, b.Bidder, `"`+b.Amt.String()+`"`)
+				}
+			}
 			checkReq = func(r any) string {
 				q, ok := r.(*types.QueryAllBidRequest)
 				if !ok || q.AuctionId != aid || q.Bidder != bd || q.IsMatched != im {
@@ -617,6 +628,9 @@ func TestC20(t *testing.T) {
 		case "list-vesting-queue":
 			wantMethod = "ListVestingQueue"
 			args = append(args, "--auction-id", fmt.Sprint(aid))
+			for _, v := range snap.VQ { // the listing ignores the auction id (known finding of C16): every instalment is shown
+				mustShow = append(mustShow, `"`+v.Amt.String()+`"`, v.Auctioneer)
+			}
 			checkReq = func(r any) string {
 				q, ok := r.(*types.QueryAllVestingQueueRequest)
 				if !ok || q.AuctionId != aid {
